@@ -68,7 +68,9 @@ def go_test(pkg, run, env=None, timeout=1800, race=False, extra_args=None, tags=
     if extra_args:
         cmd += extra_args
     try:
-        r = subprocess.run(cmd, cwd=run_cwd, env=goenv(env), capture_output=True, text=True, timeout=timeout + 60)
+        renv = dict(env or {})
+        renv.setdefault("TMPDIR", run_cwd)      # harness scratch dirs die with the run directory
+        r = subprocess.run(cmd, cwd=run_cwd, env=goenv(renv), capture_output=True, text=True, timeout=timeout + 60)
         rc, out = r.returncode, r.stdout + r.stderr
     except subprocess.TimeoutExpired as e:
         raise Infra("harness timed out: %s %s" % (pkg, run))
@@ -776,6 +778,7 @@ def go_test_sharded(pkg, run, nshards, env_for, timeout=1800, race=False, tags="
         os.makedirs(cwd, exist_ok=True)
         e = dict(env_for(i))
         e["VERIF_SHARD"] = "%d/%d" % (i, nshards)
+        e.setdefault("TMPDIR", cwd)
         try:
             p = subprocess.run([exe, "-test.run", run, "-test.timeout", "%ds" % timeout, "-test.count", "1"],
                                cwd=cwd, env=goenv(e), capture_output=True, text=True, timeout=timeout + 60)
